@@ -21,6 +21,7 @@ import (
 	"fmt"
 	"io"
 	"strings"
+	"unicode/utf16"
 	"unicode/utf8"
 )
 
@@ -774,17 +775,55 @@ func (t *tokenizer) readEscapedChar(isClob bool) (rune, error) {
 		if isClob {
 			return 0, t.invalidChar('U')
 		}
-		return t.readHexEscapeSeq(8)
+		r, err := t.readHexEscapeSeq(8)
+		if err != nil {
+			return 0, err
+		}
+		if !utf8.ValidRune(r) {
+			return 0, &SyntaxError{fmt.Sprintf("escape sequence '\\U%08X' is not a Unicode code point", r), t.pos - 10}
+		}
+		return r, nil
 	case 'u':
 		if isClob {
 			return 0, t.invalidChar('u')
 		}
-		return t.readHexEscapeSeq(4)
+		r, err := t.readHexEscapeSeq(4)
+		if err != nil {
+			return 0, err
+		}
+		if utf16.IsSurrogate(r) {
+			return t.readSurrogatePair(r)
+		}
+		return r, nil
 	case 'x':
 		return t.readHexEscapeSeq(2)
 	}
 
 	return 0, &SyntaxError{fmt.Sprintf("bad escape sequence '\\%c'", c), t.pos - 2}
+}
+
+// ReadSurrogatePair is called after a \u escape that denotes a UTF-16 surrogate: a high
+// surrogate must be followed by a \u escape denoting a low surrogate, and the two together
+// denote one code point. A surrogate on its own is not a character.
+func (t *tokenizer) readSurrogatePair(hi rune) (rune, error) {
+	pos := t.pos - 6
+	cs, err := t.peekN(2)
+	if err != nil && err != io.EOF {
+		return 0, err
+	}
+	if len(cs) == 2 && cs[0] == '\\' && cs[1] == 'u' {
+		if err := t.skipN(2); err != nil {
+			return 0, err
+		}
+		lo, err := t.readHexEscapeSeq(4)
+		if err != nil {
+			return 0, err
+		}
+		if r := utf16.DecodeRune(hi, lo); r != utf8.RuneError {
+			return r, nil
+		}
+	}
+	return 0, &SyntaxError{fmt.Sprintf("escape sequence '\\u%04X' is an unpaired surrogate", hi), pos}
 }
 
 func (t *tokenizer) readHexEscapeSeq(length int) (rune, error) {
